@@ -9,6 +9,7 @@
 From Coq Require Import ZArith NArith List Bool.
 From Cloak Require Import Model.Panel.
 From Cloak Require Import Proofs.LockOrder Proofs.PanelLocks Proofs.PanelWF Proofs.PanelOwn Proofs.PanelC16 Proofs.PanelRefute.
+From Cloak Require Model.PanelSplit Proofs.PanelSplit.
 Import ListNotations.
 Local Open Scope Z_scope.
 
@@ -110,3 +111,54 @@ Theorem C16_cutoff :
         s_closed (sess s' k') = true /\ r_sess (recs s' r) = []).
 Proof. exact (conj upload_verdict (conj upload_resp_sound (conj commit_acts_on_verdict terminate_closes_all))). Qed.
 Print Assumptions C16_cutoff.
+
+(* ---- commitUpdate overlapping itself, traffic and collection rounds (Model/PanelSplit.v) ----
+
+   The hand model already has Manager.UploadStatus as a step of its own (M8), so C16_conservation
+   covers every overlap of upload rounds with everything else.  What it rests on is WHERE the queue
+   is emptied; the small model below makes that a parameter.  early = true (the code as it is:
+   emptied in the critical section that reads it; generated obligation
+   commitUpdate_drain_and_reset_one_step of Proofs/AtomPanel.v): for every label sequence
+   - any number of commitUpdate activations, traffic and collection rounds in any interleaving - every
+   byte the valve counted is in exactly one of valve / queue / taken by a commit that has not uploaded
+   yet / charged. *)
+Theorem C16_overlapping_rounds_conservation : forall thr ls s,
+  Forall (fun p => p = PanelSplit.CIdle) thr -> PanelSplit.crun true (PanelSplit.c_init thr) ls = Some s ->
+  PanelSplit.c_counted s
+  = PanelSplit.c_valve s + PanelSplit.c_queue s + PanelSplit.inflight (PanelSplit.c_thr s) + PanelSplit.c_charged s.
+Proof. exact PanelSplit.commit_early_conservation. Qed.
+Print Assumptions C16_overlapping_rounds_conservation.
+
+(* hence exactly once, when traffic has stopped, everything is collected and no upload is in flight *)
+Theorem C16_overlapping_rounds_exactly_once : forall thr ls s,
+  Forall (fun p => p = PanelSplit.CIdle) thr -> PanelSplit.crun true (PanelSplit.c_init thr) ls = Some s ->
+  PanelSplit.c_quiet s = true -> PanelSplit.c_charged s = PanelSplit.c_counted s.
+Proof. exact PanelSplit.commit_early_exactly_once. Qed.
+Print Assumptions C16_overlapping_rounds_exactly_once.
+
+(* early = false (emptied in a second critical section AFTER the upload: the seeded change C16_m2):
+   usage collected while the upload is in flight is wiped (150 carried, 100 charged) ... *)
+Theorem C16_late_reset_refuted_lost :
+  exists s, PanelSplit.crun false (PanelSplit.c_init [PanelSplit.CIdle]) PanelSplit.late_lost = Some s
+  /\ PanelSplit.c_quiet s = true /\ PanelSplit.c_counted s = 150 /\ PanelSplit.c_charged s = 100.
+Proof. exact PanelSplit.commit_late_loses. Qed.
+Print Assumptions C16_late_reset_refuted_lost.
+
+(* ... and two overlapping rounds charge the same 100 bytes twice.  The overlapped scenarios of the
+   correspondence (T0.100.0 Ru T1.50.0 U g2 R R  and  T0.100.0 Ru M g2 R R) are these two schedules
+   on the real code. *)
+Theorem C16_late_reset_refuted_twice :
+  exists s, PanelSplit.crun false (PanelSplit.c_init [PanelSplit.CIdle; PanelSplit.CIdle]) PanelSplit.late_twice = Some s
+  /\ PanelSplit.c_quiet s = true /\ PanelSplit.c_counted s = 100 /\ PanelSplit.c_charged s = 200.
+Proof. exact PanelSplit.commit_late_charges_twice. Qed.
+Print Assumptions C16_late_reset_refuted_twice.
+
+(* the same two schedules with the code as it is (the hypotheses of the two theorems above are met) *)
+Example C16_overlapping_rounds_inhabited :
+  (exists s, PanelSplit.crun true (PanelSplit.c_init [PanelSplit.CIdle])
+               [PanelSplit.CTraffic 100; PanelSplit.CCollect; PanelSplit.CRun 0; PanelSplit.CTraffic 50; PanelSplit.CCollect; PanelSplit.CRun 0] = Some s
+             /\ PanelSplit.c_counted s = 150 /\ PanelSplit.c_charged s = 100 /\ PanelSplit.c_queue s = 50)
+  /\ (exists s, PanelSplit.crun true (PanelSplit.c_init [PanelSplit.CIdle; PanelSplit.CIdle])
+               [PanelSplit.CTraffic 100; PanelSplit.CCollect; PanelSplit.CRun 0; PanelSplit.CRun 1; PanelSplit.CRun 0; PanelSplit.CRun 1] = Some s
+             /\ PanelSplit.c_quiet s = true /\ PanelSplit.c_counted s = 100 /\ PanelSplit.c_charged s = 100).
+Proof. exact PanelSplit.commit_early_same_schedules. Qed.
